@@ -28,9 +28,10 @@ impl Parsable for Glue {
                         )? * negative
                             * i.signum()
                     }
-                    InternalNumber::Dimen(d) => d * negative,
+                    // wrapping: -2^31 is reachable through \advance
+                    InternalNumber::Dimen(d) => d.wrapping_mul(negative),
                     InternalNumber::Glue(g) => {
-                        return Ok(g * negative);
+                        return Ok(g.wrapping_mul(negative));
                     }
                 }
             }
